@@ -41,7 +41,7 @@ pub fn op_line(rules: &[String], w: &WordS) -> Option<String> {
 const CORPUS: &[(&str, &str)] = &[
     ("apːa", "[] O => p:[-long] t"), ("apːa", "[] O => p:[+long] t"), ("rpːe", "r p => p:[-long] t"), ("atːa", "[] O => p:[+long] t"),
     ("apːa", "a => p:[-long]"), ("apːa", "a => p"), ("ap.pa", "p => t:[-long]"), ("aːa", "a => a:[+long]"),
-    ("atab", "a … b k > *"), ("ha.ta", "* > e / _$x"), ("pata", "p, t, k > b, d, g | _a, _e"), ("tas", "s[+cons] > z"), ("tak", "C … C > l a b"), ("tak", "C … C > l a"), ("zɛɡ", "[-syll] ... [-rho] > l a b"),
+    ("atab", "a … b k > *"), ("ha.ta", "* > e / _$x"), ("pata", "p, t, k > b, d, g | _a, _e"), ("tas", "s[+cons] > z"), ("pat", "a > e / _ ({#,t},0) x"), ("pa.ta", "a > e / _ ({$,C},0) i"), ("tak", "C … C > l a b"), ("tak", "C … C > l a"), ("zɛɡ", "[-syll] ... [-rho] > l a b"),
 ];
 
 pub fn ops(args: &[String]) -> i32 {
